@@ -1058,6 +1058,211 @@ def rule_r9(prog, res) -> None:
         res.ok("C01.R9", "weighting resolution", "no optional configuration value reaches the grid arithmetic unguarded")
 
 
+def _elem_source(e: ast.AST) -> ast.AST:
+    """look through the element wrappers of the symbolic store: ELEM(enumerate(X))[1] -> ELEM(X),
+    ELEM(zip(A, B))[k] -> ELEM(A|B), ELEM(iter(A)) -> ELEM(A)"""
+    from .. import symx
+
+    def is_elem(x):
+        return isinstance(x, ast.Call) and isinstance(x.func, ast.Name) and x.func.id == symx.ELEM and len(x.args) == 1
+
+    changed = True
+    while changed:
+        changed = False
+        if isinstance(e, ast.Subscript) and isinstance(e.slice, ast.Constant) and isinstance(e.slice.value, int) and is_elem(e.value):
+            src = e.value.args[0]
+            fn = (dotted(src.func) or "") if isinstance(src, ast.Call) else ""
+            if fn == "enumerate" and e.slice.value == 1 and src.args:
+                e = ast.Call(func=ast.Name(id=symx.ELEM, ctx=ast.Load()), args=[src.args[0]], keywords=[])
+                changed = True
+            elif fn == "zip" and 0 <= e.slice.value < len(src.args):
+                e = ast.Call(func=ast.Name(id=symx.ELEM, ctx=ast.Load()), args=[src.args[e.slice.value]], keywords=[])
+                changed = True
+        elif isinstance(e, ast.Subscript) and isinstance(e.slice, ast.Constant) and isinstance(e.value, ast.Subscript):
+            inner = _elem_source(e.value)
+            if inner is not e.value:
+                e = ast.Subscript(value=inner, slice=e.slice, ctx=ast.Load())
+                changed = True
+        elif is_elem(e) and isinstance(e.args[0], ast.Call) and (dotted(e.args[0].func) or "") in ("iter", "list", "tuple") and len(e.args[0].args) == 1:
+            e = ast.Call(func=ast.Name(id=symx.ELEM, ctx=ast.Load()), args=[e.args[0].args[0]], keywords=[])
+            changed = True
+    return e
+
+
+def rule_r10(prog, res) -> None:
+    """the sums of weights stored with the counts are the sums over the very weights that are counted — homogeneity
+    typing on the symbolic store: (a) every constructor path of the tree class stores a `sum_weights` that is
+    homogeneous of degree one in the weights it keeps (or, without weights, a pure record count); (b) the counting
+    kernel receives both trees' weights, each of degree one, on every path on which that tree has weights; (c) the
+    per-bin sums handed on with the counts of a patch pair are those of the two trees that were counted, side 1 with
+    side 1. A count, an offset or a sum over other weights in their place passes every test with unit weights."""
+    from .. import homog, symx
+
+    cands = [c for c in prog.classes if "count" in c.methods and any(isinstance(x, ast.Attribute) and x.attr == "sum_weights" and isinstance(x.ctx, ast.Store) for m_ in c.methods.values() for x in walk_no_nested(m_.node))]
+    if len(cands) != 1:
+        raise AnalysisError(f"C01.R10: tree class (count method, stores sum_weights) not found uniquely ({[c.name for c in cands]})")
+    tree = cands[0]
+    n = 0
+    # (a) constructors
+    for m in tree.methods.values():
+        stores = [x for x in walk_no_nested(m.node) if isinstance(x, ast.Attribute) and x.attr == "sum_weights" and isinstance(x.ctx, ast.Store)]
+        if not stores:
+            continue
+        res.touch(m)
+        wparam = next((q for q in m.param_names() if q == "weights"), None)
+
+        def atom(e, wparam=wparam):
+            if wparam and isinstance(e, ast.Name) and e.id == wparam:
+                return homog.Deg.of({"w": 1})
+            if isinstance(e, ast.Call) and (dotted(e.func) or "") == "len":
+                return homog.CONST
+            if isinstance(e, ast.Attribute) and e.attr in ("num_records",):
+                return homog.CONST
+            return None
+
+        for p in symx.explore(prog, m, inline=symx.inline_private_helpers(prog)):
+            if p.outcome == "raise":
+                continue
+            objs = {k.rsplit(".", 1)[0] for k in p.store if isinstance(k, str) and k.endswith(".sum_weights")}
+            for o in sorted(objs):
+                sw, w = p.store.get(f"{o}.sum_weights"), p.store.get(f"{o}.weights")
+                if sw is None or w is None:
+                    continue
+                n += 1
+                site = res.site(m, f"{o}.sum_weights [{p.cond_text()[:50]}]")
+                dw, ds = homog.degree(w, atom), homog.degree(sw, atom)
+                none_w = isinstance(w, ast.Constant) and w.value is None
+                want = homog.CONST if none_w else homog.Deg.of({"w": 1})
+                if isinstance(ds, homog.Unknown_) or (not none_w and isinstance(dw, homog.Unknown_)):
+                    raise AnalysisError(f"C01.R10: cannot type the weight sum stored by {m.short}: {ds} / {dw}")
+                ok_w = none_w or isinstance(dw, homog.Zero) or dw == want
+                ok_s = isinstance(ds, homog.Zero) or ds == want
+                if ok_w and ok_s and not (isinstance(dw, homog.Zero) and not isinstance(ds, homog.Zero) and not none_w):
+                    res.ok("C01.R10", site, f"weights: {'none' if none_w else dw}; stored sum: {ds}")
+                else:
+                    what = f"stores the weights `{unparse(w)[:50]}` ({'none' if none_w else dw}) but the sum `{unparse(sw)[:60]}` ({ds})"
+                    res.violation(
+                        "C01.R10",
+                        m,
+                        stores[0],
+                        f"{tree.name}.{m.name} {what}: the stored sum of weights is not the sum of the weights that are counted (it must be homogeneous of degree one in them"
+                        + (", a pure record count without weights" if none_w else "")
+                        + ") — normalised counts change when the weights are rescaled",
+                        key_extra=f"sum-weights-degree-{m.name}",
+                    )
+    # (b) the counting kernel
+    cnt = tree.methods.get("count")
+    if cnt is None:
+        raise AnalysisError("C01.R10: counting method of the tree class not found")
+    res.touch(cnt)
+    other_p = [q for q in cnt.param_names() if q != "self"][0]
+    for p in symx.explore(prog, cnt, inline=symx.inline_private_helpers(prog), skip_tests=("logger",)):
+        for ev in p.calls("count_neighbors"):
+            n += 1
+            w = kwarg(ev.expr, "weights") or (ev.expr.args[3] if len(ev.expr.args) > 3 else None)
+            recv = unparse(ev.expr.func.value).rsplit(".", 1)[0] if isinstance(ev.expr.func, ast.Attribute) else "?"
+            arg0 = unparse(ev.expr.args[0]).rsplit(".", 1)[0] if ev.expr.args else "?"
+            facts = {unparse(t): pol for t, pol in p.literals()}
+            bad = None
+            comps = list(w.elts) if isinstance(w, ast.Tuple) and len(w.elts) == 2 else ([w, w] if isinstance(w, ast.Constant) and w.value is None else None) if w is not None else [ast.Constant(None), ast.Constant(None)]
+            if comps is None:
+                raise AnalysisError(f"C01.R10: weights handed to count_neighbors not recognised: {unparse(w)[:60]}")
+            for side, (obj, comp) in enumerate(zip((recv, arg0), comps), 1):
+                if isinstance(comp, ast.Constant) and comp.value is None:
+                    if facts.get(f"{obj}.weights is None") is not True and facts.get(f"{obj}.weights is not None") is not False:
+                        bad = bad or f"the weights of tree {side} ({obj}) are not handed to the KD-tree count although that tree may have weights on this path [{p.cond_text()[:60]}]"
+                elif unparse(comp) != f"{obj}.weights":
+                    d = homog.degree(comp, lambda e, obj=obj: homog.Deg.of({"w": 1}) if unparse(e) == f"{obj}.weights" else None)
+                    if d != homog.Deg.of({"w": 1}):
+                        bad = bad or f"weight argument {side} is `{unparse(comp)[:40]}` ({d}), expected the weights of {obj} (degree one)"
+            if bad:
+                res.violation("C01.R10", cnt, ev.node, f"{bad}: each pair must contribute the product of its two weights, as the stored sums of weights assume", key_extra="kernel-weights")
+            else:
+                res.ok("C01.R10", res.site(cnt, f"count_neighbors weights [{p.cond_text()[:40]}]"), f"({', '.join(unparse(c) for c in comps)}) for ({recv}, {arg0})")
+    # (c) the per-bin sums handed on with the counts
+    for fi in prog.funcs:
+        if fi.module is not prog.func("process_patch_pair").module:
+            continue
+        for p in symx.explore(prog, fi, inline=symx.inline_private_helpers(prog), skip_tests=("logger",)) if any(isinstance(x, ast.Attribute) and x.attr == "sum_weights" for x in walk_no_nested(fi.node)) else []:
+            if p.outcome != "return" or not isinstance(p.value, ast.Call):
+                continue
+            cls_ = prog.resolve_call(fi, p.node.value).classes() if isinstance(p.node, ast.Return) and isinstance(p.node.value, ast.Call) else []
+            if not cls_:
+                continue
+            fields = list(getattr(cls_[0], "class_ann", {}))
+            vals = dict(zip(fields, p.value.args))
+            vals.update({k.arg: k.value for k in p.value.keywords if k.arg})
+            sw = {f_: v for f_, v in vals.items() if "sum_weights" in f_}
+            if len(sw) < 2:
+                continue
+            res.touch(fi)
+            counts = [ev for ev in p.calls("count") if isinstance(ev.expr.func, ast.Attribute)]
+            if not counts:
+                raise AnalysisError(f"C01.R10: {fi.short} hands on sums of weights but no tree count was found on the path")
+            t_recv = _elem_source(counts[0].expr.func.value)
+            t_arg = _elem_source(counts[0].expr.args[0]) if counts[0].expr.args else None
+            trees = {"1": None, "2": None}
+            for side in ("1", "2"):
+                for t in (t_recv, t_arg):
+                    if t is not None and f"patch{side}" in unparse(t) and f"patch{'2' if side == '1' else '1'}" not in unparse(t):
+                        trees[side] = t
+            if None in trees.values():
+                raise AnalysisError(f"C01.R10: cannot tell which counted tree belongs to which side in {fi.short}: {unparse(t_recv)[:50]} / {unparse(t_arg)[:50] if t_arg is not None else None}")
+            for f_, v in sorted(sw.items()):
+                side = f_[-1]
+                if side not in trees:
+                    continue
+                n += 1
+                # value stored per bin: the SETITEM chain's values
+                stored = []
+                x = v
+                while isinstance(x, ast.Call) and isinstance(x.func, ast.Name) and x.func.id == symx.SETITEM and len(x.args) == 3:
+                    stored.append(x.args[2])
+                    x = x.args[0]
+                if not stored:
+                    stored = [v]
+                tt = unparse(trees[side])
+
+                def atom(e, tt=tt):
+                    if isinstance(e, ast.Attribute) and e.attr == "sum_weights":
+                        return homog.Deg.of({unparse(_elem_source(e.value)): 1})
+                    if isinstance(e, ast.Attribute) and e.attr in ("num_records",):
+                        return homog.CONST
+                    if isinstance(e, ast.Call) and (dotted(e.func) or "") == "len":
+                        return homog.CONST
+                    return None
+
+                bad = None
+                for sv in stored:
+                    d = homog.degree(sv, atom)
+                    if isinstance(d, homog.Unknown_):
+                        raise AnalysisError(f"C01.R10: cannot type `{unparse(sv)[:60]}` stored as {f_} in {fi.short}: {d}")
+                    if d != homog.Deg.of({tt: 1}):
+                        bad = (sv, d)
+                if bad:
+                    res.violation(
+                        "C01.R10",
+                        fi,
+                        p.node,
+                        f"{f_} of the patch pair is `{unparse(bad[0])[:70]}` ({str(bad[1])[:80]}): expected the sum of weights of the tree of catalog {side} that was counted — the normalisation of the pair counts "
+                        "uses another quantity than the weights that entered the counts",
+                        key_extra=f"pair-sum-weights-{f_}",
+                    )
+                else:
+                    res.ok("C01.R10", res.site(fi, f_), f"is the sum of weights of the counted tree of side {side}")
+    if n < 7:
+        raise AnalysisError(f"C01.R10: only {n} weight-sum instances typed, minimum 7")
+
+
+def rule_r11(prog, res) -> None:
+    """pruning and counting use one cosmology (shared with C15.R11): the configured cosmology reaches every
+    conversion of scales to angles — the pruning radius of the patch linkage included"""
+    from . import c15
+    from .common import shared_rule
+
+    shared_rule(res, c15.rule_r11, "C15", "C15.R11", "C01.R11")
+
+
 RULES = [
     ("C01.R1", rule_r1, QUICK),
     ("C01.R2", rule_r2, QUICK),
@@ -1068,4 +1273,6 @@ RULES = [
     ("C01.R7", rule_r7, QUICK),
     ("C01.R8", rule_r8, QUICK),
     ("C01.R9", rule_r9, QUICK),
+    ("C01.R10", rule_r10, QUICK),
+    ("C01.R11", rule_r11, QUICK),
 ]
